@@ -1,14 +1,17 @@
 #!/bin/bash
 # confirm_mut.sh <worktree> <patch> <demo.rs> : confirm a seeded change ourselves
+# (cargo features for the demo are read from a first line `// features: a,b`)
 # prints: SUITE_WITH=<pass/fail> DEMO_WITH=<pass/fail> DEMO_WITHOUT=<pass/fail>
 wt="$1"; patch="$2"; demo="$3"
 cd "$wt" || exit 2
 git checkout -q -- . ; rm -rf tests; mkdir -p tests
 cp "$demo" tests/demo_x.rs
+feats=$(head -1 "$demo" | sed -n 's|^// *features: *||p' | tr ',' ' ' | tr ' ' '\n' | grep -E '^[a-z][a-z-]*$' | grep -v -E '^(default|none)$' | xargs | tr ' ' ',')
+fa=""; [ -n "$feats" ] && fa="--features $feats"
 export CARGO_TARGET_DIR="$wt/target"
-dw=fail; cargo test --offline --test demo_x >/dev/null 2>&1 && dw=pass
+dw=fail; timeout 900 cargo test --offline $fa --test demo_x >/dev/null 2>&1 && dw=pass
 git apply "$patch" || { echo "APPLY-FAILED"; exit 2; }
 sw=fail; out=$(cargo test --offline --lib 2>&1 | grep "^test result" | head -1); echo "$out" | grep -q "51 passed; 0 failed" && sw=pass
-dm=fail; timeout 300 cargo test --offline --test demo_x >/dev/null 2>&1 && dm=pass
+dm=fail; timeout 900 cargo test --offline $fa --test demo_x >/dev/null 2>&1 && dm=pass
 git checkout -q -- . ; rm -rf tests
-echo "SUITE_WITH=$sw DEMO_WITH=$dm DEMO_WITHOUT=$dw ($out)"
+echo "SUITE_WITH=$sw DEMO_WITH=$dm DEMO_WITHOUT=$dw feats=[$feats] ($out)"
